@@ -182,6 +182,7 @@ pub async fn custom_step(run: &mut Run, idx: usize, kind: &str, s: &Value) -> bo
                 o["clean"] = s["clean"].clone();
                 o["step"] = json!(idx);
                 o["pending_faults"] = json!(g.faults.values().map(|q| q.len()).sum::<usize>());
+                o["served_states"] = json!(g.served_states.iter().map(|(a, b)| json!([a, b])).collect::<Vec<_>>());
             }
             run.observations.push((label, vrt::time::now_ns(), o));
             true
@@ -273,6 +274,25 @@ pub fn gen_c09(seed: u64, tier: &str) -> Value {
     let interval = 1 + r.below(15);
     let mut tokn = 0u64;
     for k in 0..nsteps {
+        // a transient answer first: the host reports something, key negotiation fails while it is in force, and the
+        // report changes again before the agent ever got through - what the agent keeps from the abandoned attempt
+        // must not survive into the next clean state
+        if r.chance(1, 3) {
+            steps.push(json!({"t": "doc", "doc": gen_keeper_doc(&mut r, &procs, 100 + k, hostga_follows)}));
+            if r.chance(1, 2) {
+                steps.push(json!({"t": "host_latch", "mode": "none"}));
+            }
+            for _ in 0..1 + r.below(2) {
+                let kind = *r.pick(&["acquire", "attest", "attest"]);
+                let f = match r.below(3) {
+                    0 => json!({"f": "status", "status": *r.pick(&[500u64, 503, 403])}),
+                    1 => json!({"f": "reset_before"}),
+                    _ => json!({"f": "reset_after"}),
+                };
+                steps.push(json!({"t": "host_fault", "kind": kind, "fault": f}));
+            }
+            steps.push(json!({"t": "drain_faults", "max_s": 60}));
+        }
         // change
         match r.below(6) {
             0 => steps.push(json!({"t": "host_latch", "mode": *r.pick(&["none", "new", "rotate_with_file"])})),
@@ -425,6 +445,7 @@ pub fn check_c09(run: &mut Run) {
     let mut n_clean = 0i64;
     let mut n_failed = 0i64;
     let mut n_state_changes = 0i64;
+    let mut n_not_judged = 0i64;
     for (label, _t, o) in obs.iter() {
         if !o.is_object() {
             continue;
@@ -462,7 +483,29 @@ pub fn check_c09(run: &mut Run) {
                 }
                 // interception, judged when the reported channel state changed since the previous clean point
                 let st = ref_state(doc);
-                if last_state.as_ref() != Some(&st) {
+                // "whenever the reported channel state changes": the obligation attaches to the answer at which the state
+                // the host reports last changed. Answers in between clean points count (the agent polled them): find the
+                // answer that opened the current run of equal reported states, and judge only if the endpoints it
+                // switches on are the ones the current document switches on (a later document with the same reported
+                // state but other per-endpoint modes - e.g. after a protocol-version change - is not a state change)
+                let served: Vec<(String, String)> = o["served_states"].as_array().map(|a| a.iter().map(|x| (x[0].as_str().unwrap_or("").to_string(), x[1].as_str().unwrap_or("").to_string())).collect()).unwrap_or_default();
+                let change_answer = {
+                    let mut idx = served.len();
+                    while idx > 0 && served[idx - 1].0 == st {
+                        idx -= 1;
+                    }
+                    served.get(idx).cloned()
+                };
+                let cur_triple = {
+                    let (w, i, h) = ref_modes(doc);
+                    let on = |m: &str| norm_mode(m) != "disabled";
+                    format!("{}{}{}", on(&w) as u8, on(&i) as u8, on(&h) as u8)
+                };
+                let same_switches = change_answer.as_ref().map(|(_, t)| *t == cur_triple).unwrap_or(true);
+                if last_state.as_ref() != Some(&st) && !same_switches {
+                    n_not_judged += 1;
+                }
+                if last_state.as_ref() != Some(&st) && same_switches {
                     n_state_changes += 1;
                     if o["hooks_attached"] == true {
                         let (w, i, h) = ref_modes(doc);
@@ -509,6 +552,7 @@ pub fn check_c09(run: &mut Run) {
     run.stat("c09.clean_points", n_clean);
     run.stat("c09.failed_poll_episodes", n_failed);
     run.stat("c09.state_changes_judged", n_state_changes);
+    run.stat("c09.state_changes_not_judged_other_switches_at_change_answer", n_not_judged);
     for (c, d) in viol {
         run.violate("C09", &c, d);
     }
@@ -590,6 +634,13 @@ pub fn gen_c12(seed: u64, tier: &str) -> Value {
     if r.chance(1, 10) {
         // restricting the directory fails at start-up
         disk_faults.push(json!({"op": *r.pick(&["chmod", "chown"]), "path": "azure-proxy-agent/keys", "nth": 1, "errno": 1, "short": 0}));
+    }
+    if r.chance(1, 4) {
+        // saving a key fails: creating or writing the temporary file, or renaming it into place (full disk, I/O error)
+        for _ in 0..1 + r.below(2) {
+            let (op, path) = *r.pick(&[("open", "keys/"), ("write", "keys/"), ("rename", "keys/"), ("write", ".tmp")]);
+            disk_faults.push(json!({"op": op, "path": path, "nth": 1 + r.below(6), "errno": *r.pick(&[28i64, 5, 30]), "short": 0}));
+        }
     }
     json!({
         "scenario": "keeper:C12", "seed": seed, "family": "keeper", "prop": "C12", "disk_faults": disk_faults,
